@@ -25,7 +25,7 @@ pub fn def() -> PropDef {
         check,
         genome_len: 500,
         quick_cases: 16_000,
-        thorough_cases: 800_000,
+        thorough_cases: 500_000,
         rule: "case = (group, P = c*generator in one of 6 representations incl. three identities, scalars k, a, b from {0,1,2,3,r-1,r-2,(r+-1)/2, 2^i, 2^i+-1, r-2^i, run-length patterns, Hamming weight <=4 / >=252, small, uniform 256/512-bit}); P*k and k*P are mapped to affine by the reference and compared with an independent double-and-add over affine arithmetic from P's coordinates; relations (a+b)P=aP+bP, (ab)P=a(bP), 0P=O, 1P=P, (r-1)P=-P, generator order exactly r; non-trivial = k not in {0,1} and (P not z=1 or k from a boundary class); distinct by (group, c, representation, k, a, b)",
         required,
         enumerate: None,
